@@ -7,6 +7,7 @@ CONSTANTS
   ReserveNs = {0, 5}
   AllocBelow = 1
   AllocAbove = 1
-  ByteSized = FALSE
+  ESize = 8
+  EAlign = 8
   Lifetime = TRUE
 INVARIANTS TypeOK Bounded LastAgrees
